@@ -71,3 +71,51 @@ func StorePointer(p *unsafe.Pointer, v unsafe.Pointer) {
 	sched.Point("atomic.store")
 	atomic.StorePointer(p, v)
 }
+
+// the rest of sync/atomic's function API (so that a tree that starts using them still builds)
+func SwapUint32(p *uint32, v uint32) uint32 {
+	sched.Point("atomic.swap")
+	return atomic.SwapUint32(p, v)
+}
+func SwapUint64(p *uint64, v uint64) uint64 {
+	sched.Point("atomic.swap")
+	return atomic.SwapUint64(p, v)
+}
+func SwapUintptr(p *uintptr, v uintptr) uintptr {
+	sched.Point("atomic.swap")
+	return atomic.SwapUintptr(p, v)
+}
+func SwapPointer(p *unsafe.Pointer, v unsafe.Pointer) unsafe.Pointer {
+	sched.Point("atomic.swap")
+	return atomic.SwapPointer(p, v)
+}
+func CompareAndSwapUintptr(p *uintptr, o, n uintptr) bool {
+	sched.Point("atomic.cas")
+	return atomic.CompareAndSwapUintptr(p, o, n)
+}
+func CompareAndSwapPointer(p *unsafe.Pointer, o, n unsafe.Pointer) bool {
+	sched.Point("atomic.cas")
+	return atomic.CompareAndSwapPointer(p, o, n)
+}
+func AddUintptr(p *uintptr, d uintptr) uintptr {
+	sched.Point("atomic.add")
+	return atomic.AddUintptr(p, d)
+}
+func LoadUintptr(p *uintptr) uintptr       { sched.Point("atomic.load"); return atomic.LoadUintptr(p) }
+func StoreUintptr(p *uintptr, v uintptr)   { sched.Point("atomic.store"); atomic.StoreUintptr(p, v) }
+func AndInt32(p *int32, m int32) int32     { sched.Point("atomic.and"); return atomic.AndInt32(p, m) }
+func AndUint32(p *uint32, m uint32) uint32 { sched.Point("atomic.and"); return atomic.AndUint32(p, m) }
+func AndInt64(p *int64, m int64) int64     { sched.Point("atomic.and"); return atomic.AndInt64(p, m) }
+func AndUint64(p *uint64, m uint64) uint64 { sched.Point("atomic.and"); return atomic.AndUint64(p, m) }
+func AndUintptr(p *uintptr, m uintptr) uintptr {
+	sched.Point("atomic.and")
+	return atomic.AndUintptr(p, m)
+}
+func OrInt32(p *int32, m int32) int32     { sched.Point("atomic.or"); return atomic.OrInt32(p, m) }
+func OrUint32(p *uint32, m uint32) uint32 { sched.Point("atomic.or"); return atomic.OrUint32(p, m) }
+func OrInt64(p *int64, m int64) int64     { sched.Point("atomic.or"); return atomic.OrInt64(p, m) }
+func OrUint64(p *uint64, m uint64) uint64 { sched.Point("atomic.or"); return atomic.OrUint64(p, m) }
+func OrUintptr(p *uintptr, m uintptr) uintptr {
+	sched.Point("atomic.or")
+	return atomic.OrUintptr(p, m)
+}
